@@ -158,6 +158,13 @@ pub const FAMILIES: &[Family] = &[
     Family { name: "addr-then-asm-block", nesting: false, gen: |_, k| format!("#ruledef\n{{\n    nop => 0x00\n    two => asm\n    {{\n        nop\n        nop\n    }}\n}}\n#addr {}\ntwo\n", k) },
     Family { name: "type-width-le", nesting: false, gen: |_, k| format!("#ruledef\n{{\n    t {{x: u{}}} => le(x)\n}}\nt 1\n", k) },
     Family { name: "type-width-asm-block", nesting: false, gen: |_, k| format!("#ruledef\n{{\n    e {{v}} => v`8\n    t {{x: u{}}} => asm {{ e {{x}} }}\n}}\nt 1\n", k) },
+    Family { name: "rule-many-params", nesting: true, gen: |n, _| {
+        // appended after a round-7 agent's note: a rule with n comma-separated untyped parameters, used with n arguments
+        let n = n.min(200);
+        let pars: Vec<String> = (0..n).map(|k| format!("{{a{}}}", k)).collect();
+        let args: Vec<String> = (0..n).map(|_| "1".to_string()).collect();
+        format!("#ruledef\n{{\n    ldq {} => 0x00\n}}\nldq {}\n", pars.join(", "), args.join(", "))
+    } },
 ];
 
 pub fn magnitudes() -> Vec<String> {
